@@ -667,8 +667,52 @@ def check_line_delimiters(ctx, rep, rule=RULE + '.g'):
     return n
 
 
+def _first_word_alias(f, e):
+    """follow local names to the expression they denote, also through  head, rest = words[0], words[1:]"""
+    for _ in range(4):
+        if not isinstance(e, ast.Name):
+            break
+        nxt = None
+        for st in walk_no_nested(f.node):
+            if isinstance(st, ast.Assign) and len(st.targets) == 1:
+                tg, val = st.targets[0], st.value
+                if isinstance(tg, ast.Name) and tg.id == e.id:
+                    nxt = val
+                elif isinstance(tg, (ast.Tuple, ast.List)) and isinstance(val, (ast.Tuple, ast.List)) and len(tg.elts) == len(val.elts):
+                    for t0, v0 in zip(tg.elts, val.elts):
+                        if isinstance(t0, ast.Name) and t0.id == e.id:
+                            nxt = v0
+        if nxt is None:
+            break
+        e = nxt
+    return e
+
+
 def _line_delimiters_in(ctx, rep, f, patterns, rule):
     n = 0
+    # the comment test spelled as a comparison of the first character:  head[:1] == '%'  /  head[0] == '%'
+    for c in walk_no_nested(f.node):
+        if isinstance(c, ast.Compare) and len(c.ops) == 1 and isinstance(c.ops[0], (ast.Eq, ast.NotEq)) and isinstance(c.comparators[0], ast.Constant) \
+                and isinstance(c.comparators[0].value, str) and len(c.comparators[0].value) == 1 and isinstance(c.left, ast.Subscript):
+            sl = c.left.slice
+            first_char = (isinstance(sl, ast.Constant) and sl.value == 0) or (isinstance(sl, ast.Slice) and sl.lower is None and isinstance(sl.upper, ast.Constant) and sl.upper.value == 1)
+            if not first_char:
+                continue
+            d = c.comparators[0].value
+            recv = _first_word_alias(f, c.left.value)
+            if isinstance(recv, ast.Subscript) and isinstance(recv.slice, ast.Constant) and recv.slice.value == 0:
+                n += 1
+                bad = None
+                for where, p in sorted(patterns.items()):
+                    if 'state' not in where:
+                        continue
+                    ok, wit = relang.included(p, '[^{}].*|'.format(re.escape(d)))
+                    if not ok:
+                        bad = (where, p, wit)
+                if bad:
+                    rep.violates(rule, f, c, "a state name may start with the comment character '{}' ({} admits '{}')".format(d, bad[1], bad[2]))
+                else:
+                    rep.holds(rule, f, c, "the comment test looks at the first word only, and no state name starts with '{}'".format(d))
     derived = {p for p in f.params if p != 'self'}
     for _ in range(3):
         for s in walk_no_nested(f.node):
@@ -707,7 +751,7 @@ def _line_delimiters_in(ctx, rep, f, patterns, rule):
         if c.func.attr == 'startswith' and c.args and isinstance(c.args[0], ast.Constant) and isinstance(c.args[0].value, str):
             d = c.args[0].value
             n += 1
-            recv = resolve_alias(f, c.func.value) if isinstance(c.func.value, ast.Name) else c.func.value
+            recv = _first_word_alias(f, c.func.value)
             first_word = isinstance(recv, ast.Subscript) and isinstance(recv.slice, ast.Constant) and recv.slice.value == 0
             if not first_word:
                 if not (names_in(c.func.value) & derived):
